@@ -32,6 +32,7 @@ var c06Hostile = []string{
 	"40ffffff7f0001",       // PUBACK declaring 256 MiB
 	"10ffffff7f00044d515454", // CONNECT declaring 256 MiB
 	"e0ffffff7f",           // DISCONNECT declaring 256 MiB
+	"62ffffffff",           // PUBREL: four continuation bytes, then end of input
 	"f0ffffff7f00",         // AUTH declaring 256 MiB
 	"20ffff7f",             // CONNACK declaring 2 MiB
 	"c0",                   // PINGREQ without a length byte
@@ -313,9 +314,11 @@ func c06GenMutated(t *rapid.T) c06BytesScen {
 		}
 	case "rl-larger":
 		rl := uint32(h.rl)
-		nv := rapid.SampledFrom([]uint32{rl + 1, rl + 2, rl + 127, rl*2 + 1, 127, 128, 16383, 16384, 65535, 1 << 20, 1 << 20, 3 << 20}).Draw(t, "nrl")
+		nv := rapid.SampledFrom([]uint32{rl + 1, rl + 2, rl + 127, rl*2 + 1, 127, 128, 16383, 16384, 65535, 200000, 1 << 20}).Draw(t, "nrl")
 		if rapid.IntRange(0, 199).Draw(t, "huge") == 137 { // rare (rapid favours the bounds of a range, not its middle)
-			nv = mw.MaxVarInt
+			// not 256 MiB: gmqtt really allocates what is declared (F-c06-alloc-declared-length),
+			// which takes seconds on a loaded machine; the 256 MiB inputs are in c06Hostile
+			nv = 4 << 20
 		}
 		if nv <= rl {
 			nv = rl + 1
@@ -434,6 +437,13 @@ func c06GenMutated(t *rapid.T) c06BytesScen {
 	case 2:
 		out = append(append([]byte(nil), out...), 0xff, 0xff, 0x03, 0xff) // after a cut at 1: declares 64 KiB, not 256 MiB
 	}
+	// Cap the declared length at 2 MiB (gmqtt really allocates what is declared, see
+	// c06GenRandom); the over-long forms of rl-5byte are rejected before any allocation.
+	if kind != "rl-5byte" && len(out) > 3 && c06ParseHdr(out).lenient > 8<<20 {
+		out = append([]byte(nil), out...)
+		out[3] &= 0x7f
+		s.Mut += "+capped"
+	}
 	s.Data = out
 	return s
 }
@@ -446,10 +456,11 @@ func c06GenRandom(t *rapid.T) c06BytesScen {
 	case 0:
 		s.Mut = "raw"
 		s.Data = rapid.SliceOfN(rapid.Byte(), 0, 48).Draw(t, "raw")
-		// keep declared lengths of megabytes rare: they are slow only because of
-		// F-c06-alloc-declared-length and are covered by rl-larger and the constants
-		if len(s.Data) > 2 && s.Data[1]&0x80 != 0 && s.Data[2]&0x80 != 0 && rapid.IntRange(0, 19).Draw(t, "keepHuge") != 13 {
-			s.Data[2] &= 0x7f
+		// Cap the declared length at 2 MiB (three length bytes): gmqtt really allocates what
+		// is declared (F-c06-alloc-declared-length), hundreds of MiB take seconds each on a
+		// loaded machine. Inputs declaring 256 MiB are in c06Hostile and the corpus.
+		if len(s.Data) > 3 && s.Data[1]&0x80 != 0 && s.Data[2]&0x80 != 0 {
+			s.Data[3] &= 0x7f
 		}
 	default:
 		s.Mut = "framed"
